@@ -286,8 +286,10 @@ package engine
 //@   ensures [C10] any-unnamed-import-of-the-path-suffices: m.Name == nil && (exists i int :: 0 <= i && i < len(file.Imports) && unquoted(file.Imports[i].Path.Value) == m.Path && file.Imports[i].Name == nil) ==> ok
 //@   ensures [C10] unnamed-matches-only-unnamed: ret("goast.FindImportSpec", 0) != nil && m.Name == nil ==> (ok <==> ret("goast.FindImportSpec", 0).Name == nil)
 //@   ensures [C10] literal-name-does-not-match-unnamed: ret("goast.FindImportSpec", 0) != nil && m.Name != nil && ret("goast.FindImportSpec", 0).Name == nil && !m.NameIsMetavar ==> !ok
-//@   ensures [C10] metavariable-name-matches-unnamed: ret("goast.FindImportSpec", 0) != nil && m.Name != nil && ret("goast.FindImportSpec", 0).Name == nil && m.NameIsMetavar ==> ok == MatchOK(m.Name, ret("reflect.ValueOf", 1), dmap(ret("data.WithValue", 2)), nodeRegionOf(boxed(ret("goast.FindImportSpec", 0))))
-//@   ensures [C10] named-matches-by-name: ret("goast.FindImportSpec", 0) != nil && m.Name != nil && ret("goast.FindImportSpec", 0).Name != nil ==> ok == MatchOK(m.Name, rvOf(boxed(ret("goast.FindImportSpec", 0).Name)), dmap(ret("data.WithValue", 0)), nodeRegionOf(boxed(ret("goast.FindImportSpec", 0))))
+//@   ensures [C02,C10] metavariable-name-matches-unnamed: ret("goast.FindImportSpec", 0) != nil && m.Name != nil && ret("goast.FindImportSpec", 0).Name == nil && m.NameIsMetavar ==> ok == MatchOK(m.Name, ret("reflect.ValueOf", 1), dmap(ret("data.WithValue", 2)), nodeRegionOf(boxed(ret("goast.FindImportSpec", 0))))
+//@   ensures [C02,C10] named-matches-by-name: ret("goast.FindImportSpec", 0) != nil && m.Name != nil && ret("goast.FindImportSpec", 0).Name != nil ==> ok == MatchOK(m.Name, rvOf(boxed(ret("goast.FindImportSpec", 0).Name)), dmap(ret("data.WithValue", 0)), nodeRegionOf(boxed(ret("goast.FindImportSpec", 0))))
+//@   ensures [C02] an-import-named-by-a-metavariable-binds-it-for-the-whole-file: ret("goast.FindImportSpec", 0) != nil && m.Name != nil && ret("goast.FindImportSpec", 0).Name == nil && m.NameIsMetavar && ok ==> dmap(d1) == MatchD(m.Name, ret("reflect.ValueOf", 1), dmap(ret("data.WithValue", 2)), nodeRegionOf(boxed(ret("goast.FindImportSpec", 0))))
+//@   ensures [C02] a-named-import-binds-its-name: ret("goast.FindImportSpec", 0) != nil && m.Name != nil && ret("goast.FindImportSpec", 0).Name != nil && ok ==> dmap(d1) == MatchD(m.Name, rvOf(boxed(ret("goast.FindImportSpec", 0).Name)), dmap(ret("data.WithValue", 0)), nodeRegionOf(boxed(ret("goast.FindImportSpec", 0))))
 //@   ensures d1 != nil
 //@   assigns nothing
 
